@@ -415,7 +415,7 @@ package vegeta
 //@   at call p.Pace: ghost paceOpen = true ; ghost lastElapsed = arg0 ; ghost lastWait = result0 ; ghost lastStop = result1 ; ghost slept = false
 //@   before call time.Sleep: assert [C04-sleeps-the-returned-wait] paceOpen && !lastStop && arg0 == lastWait ; ghost slept = true
 //@   at select-nonblocking: assert [C03-nonblocking-only-below-max] workers < a.maxWorkers && !afterSpawn
-//@   at select-blocking: ghost afterSpawn = false
+//@   at select-blocking: assert [C03-free-capacity-is-used-the-loop-blocks-only-at-max-or-right-after-adding-a-worker] workers == a.maxWorkers || afterSpawn ; ghost afterSpawn = false
 //@   at send ticks x2: assert [C04-released-only-after-wait-and-no-stop] paceOpen && slept && !lastStop ;
 //@        assert [C02-no-tick-after-close] phase == 0 ;
 //@        ghost released = released + 1 ; ghost paceOpen = false ; assume [fewer-than-2^62-hits] released < 4611686018427387904
@@ -612,6 +612,7 @@ package vegeta
 //@     decreases lexleft(in) + (lexok(in) ? 1 : 0)
 //@   loop 3
 //@     invariant lexleft(in) + (lexok(in) ? 1 : 0) <= g1 && (cap(v2) > 0 ==> fresh(v2))
+//@     decreases lexleft(in) + (lexok(in) ? 1 : 0)
 
 // JSON targeter: only the line read happens under the reader's mutex; everything else touches locals,
 // the caller's *tgt and fresh memory (frame), so concurrent callers interfere only through the reader.
